@@ -84,6 +84,12 @@ pub fn sched(args: &[&str]) -> String {
 pub fn schedx(args: &[&str]) -> String {
     sched_cmd("SCHEDX", args)
 }
+/// SCHEDT: same grammar as SCHED, but the clock TICKS inside every call: the first clock read of a call sees the reading written in
+/// the case line, every further read of the same call sees one millisecond more (a call that reads the clock once behaves as under
+/// SCHED).  Whatever the implementation does with several readings, the returned (time, seq) pairs must be distinct.
+pub fn schedt(args: &[&str]) -> String {
+    sched_cmd("SCHEDT", args)
+}
 fn sched_cmd(cmd: &str, args: &[&str]) -> String {
     if parse(args).is_none() {
         return "BADCASE".into();
@@ -135,6 +141,10 @@ pub fn sched_child_main() {
             ENTRY_MIX.store(true, std::sync::atomic::Ordering::SeqCst);
             &toks[1..]
         }
+        Some(&"SCHEDT") => {
+            TICKING.store(true, std::sync::atomic::Ordering::SeqCst);
+            &toks[1..]
+        }
         _ => &toks[..],
     };
     let out = match parse(args) {
@@ -147,6 +157,7 @@ pub fn sched_child_main() {
 }
 
 static ENTRY_MIX: std::sync::atomic::AtomicBool = std::sync::atomic::AtomicBool::new(false);
+static TICKING: std::sync::atomic::AtomicBool = std::sync::atomic::AtomicBool::new(false);
 
 /// One call that generates a fresh creation timestamp, through the entry point number `k`.
 fn fresh_timestamp(k: usize) -> bp7::CreationTimestamp {
@@ -212,7 +223,11 @@ fn worker(sh: Shared, id: usize, readings: Vec<u64>) {
     bp7::verif_hooks::set_yield_hook(Some(Box::new(move |_op| park(&hook_sh, id))));
     for (k, r) in readings.into_iter().enumerate() {
         park(&sh, id); // the grant that starts the call
-        bp7::verif_hooks::set_thread_clock_ms(Some(r));
+        if TICKING.load(std::sync::atomic::Ordering::SeqCst) {
+            bp7::verif_hooks::set_thread_clock_script(Some(vec![r, r.saturating_add(1)]));
+        } else {
+            bp7::verif_hooks::set_thread_clock_ms(Some(r));
+        }
         let res = std::panic::catch_unwind(move || fresh_timestamp(id + k + 1));
         let (m, _) = &*sh;
         let mut st = m.lock().unwrap();
